@@ -209,6 +209,7 @@ def run_task(payload, props=("C01", "C02")):
     if payload.get("ops_filter"):
         ops = [o for o in ops if o[0] in payload["ops_filter"]]
     succ_all, violations, stats = [], [], {}
+    audit_only = bool(payload.get("audit"))
     for hist, want_key in zip(payload["histories"], payload.get("keys") or [None] * len(payload["histories"])):
         hist = _t(hist)
         if want_key is not None:
@@ -228,6 +229,9 @@ def run_task(payload, props=("C01", "C02")):
                 stats["disabled"] = stats.get("disabled", 0) + 1
                 continue
             key, expandable, out, outcome = res
+            if audit_only:
+                succ.append((op, key, expandable))
+                continue
             for p in props:
                 violations.extend(out[p])
             stats["outcome:" + str(outcome)] = stats.get("outcome:" + str(outcome), 0) + 1
@@ -267,6 +271,8 @@ def explore(ctx, props, depth_quick=2, depth_thorough=3):
             res = _bfs_with_keys(ctx, pool, interface, depth)
         total["states"] += res["states"]
         total["transitions"] += res["transitions"]
+        for k, v in res["audit"].items():
+            total["audit_" + k] = total.get("audit_" + k, 0) + v
         layers[interface] = res["layers"]
         for k, v in res["stats"].items():
             stats_all[k] = stats_all.get(k, 0) + v
@@ -286,7 +292,9 @@ def explore(ctx, props, depth_quick=2, depth_thorough=3):
         "outcomes": stats_all,
         "distinct_outcomes": len([k for k in stats_all if k.startswith("outcome:")]),
         "failing_op_transitions": stats_all.get("failing_ops", 0),
-        "audits": {"non_interference_replays": stats_all.get("audit_non_interference", 0)},
+        "audits": {"non_interference_replays": stats_all.get("audit_non_interference", 0),
+                   "bisimulation_merged_histories": total.get("audit_merged_histories_audited", 0),
+                   "bisimulation_mismatches": total.get("audit_mismatches", 0)},
     })
     ctx.assumptions += [
         "models no larger than the bench (4 reactions, 3 metabolites, 3 genes, 1 group, 1 user variable/constraint)",
@@ -303,7 +311,8 @@ def _bfs_with_keys(ctx, pool, interface, depth):
     S = bench.Session(interface)
     k0 = state_key(S)
     return ex.bfs(ctx, _KeyedPool(pool, seen), [((), k0)], max_depth=depth,
-                  extra={"interface": interface, "tier": ctx.tier}, batch=2, timeout=900)
+                  extra={"interface": interface, "tier": ctx.tier}, batch=2, timeout=900,
+                  audit_depth=(1 if ctx.tier == "quick" else 2))
 
 
 class _KeyedPool:
